@@ -106,4 +106,11 @@ theorem C08_update_last (ctx : ImplContext) (named : Bool) (l : List (Nat × Str
 theorem C08_no_update (ctx : ImplContext) (hu : ctx.structAttr.update = none) : updateToks ctx = [] := by
   simp [updateToks, hu]
 
+/-- C08-4 (`return expr` stands for the *whole* body): with a quick return no call for a parameterless `#[parent]` member
+    is generated, in any kind — so the body is the returned expression alone, in the plain dialect (fix d00ee70: the
+    calls used to follow the returned expression) -/
+theorem C08_return_no_parent_calls (input : DataType) (ctx : ImplContext) (qr : TS) (h : ctx.structAttr.quickReturn = some qr) :
+    postInitOf input ctx = .ok none := by
+  simp [postInitOf, h, pure, Except.pure]
+
 end O2o
